@@ -29,6 +29,7 @@ import IvpModel.Proofs.ReflectRk23
 import IvpModel.Proofs.ReflectHairer
 import IvpModel.Proofs.ReflectDopri5
 import IvpModel.Proofs.ReflectDop853
+import IvpModel.Proofs.ScaleDopri5
 
 noncomputable section
 variable {K : Type} [Field K] [LinearOrder K] [IsStrictOrderedRing K] [SqrtPow K]
@@ -190,6 +191,44 @@ theorem c13_reflect_dop853_whole_run {σ : Type} {n : Nat} (L : Ctl.HLits K) (xe
         f ob obs0 x0 y0 firstStep (Ctl.hinitCall atol rtol x0 y0 posneg hmaxArg iord) fo hl fuel).map Ctl.rResult :=
   Ctl.dop853Solve_reflect L xend posneg uround safety scaleMin scaleMax beta hmax nmax nstiff dense atol rtol f ob obs0 x0 y0 firstStep
     hmaxArg iord fo hl hp fuel
+
+/-- **Whole runs of the DOPRI5 / DOP853 skeleton under a scaling of the state** by `c ≠ 0`, for every pair of kernels related by
+    the scaling laws `Ctl.KScale` (the same method with tolerances `atol` and `c·atol`): `solve` on the scaled problem
+    `z' = c·f(t, z/c)`, `z(x0) = c·y0`, seen through an observer that is shown `z/c`, is the scaled image of `solve` — the same
+    step points, step sizes, error estimates, statuses and counters. -/
+theorem c13_scale_hairer_whole_run {σ : Type} {n : Nat} (c : K) (hc : c ≠ 0) (P : Ctl.HParams K n) (Kn Kn' : Ctl.HKernel K n)
+    (KS : Ctl.KScale c Kn Kn') (f : Ctl.Rhs K n) (ob : Ctl.Obs σ K n) (obs0 : σ) (x0 : K) (y0 : Ctl.Vec K n) (firstStep : Option K)
+    (hinit hinit' : Ctl.Rhs K n → Ctl.Vec K n → K × Array (K × Ctl.Vec K n)) (hH : Ctl.HinitScale c hinit hinit') (fo hl : K) (fuel : Nat) :
+    Ctl.hSolve P Kn' (Ctl.sRhs c f) (Ctl.sObs c ob) obs0 x0 (vsmul c y0) firstStep hinit' fo hl fuel
+      = (Ctl.hSolve P Kn f ob obs0 x0 y0 firstStep hinit fo hl fuel).map (Ctl.sResult c) :=
+  Ctl.hSolve_scale c hc P Kn Kn' KS f ob obs0 x0 y0 firstStep hinit hinit' hH fo hl fuel
+
+/-- **Whole runs of DOPRI5 under a scaling of state and atol by `c > 0`** (the property's 2^k), automatic first step included;
+    for a linear homogeneous system the scaled right-hand side is the right-hand side itself (`Ctl.sRhs_of_homogeneous`). -/
+theorem c13_scale_dopri5_whole_run {σ : Type} {n : Nat} (c : K) (hc : 0 < c) (L : Ctl.HLits K)
+    (xend posneg uround safety scaleMin scaleMax beta hmax : K) (nmax nstiff : Nat) (dense : Bool) (atol rtol : Ctl.Vec K n)
+    (f : Ctl.Rhs K n) (hf : ∀ j t y, f j t (vsmul c y) = vsmul c (f j t y)) (ob : Ctl.Obs σ K n) (obs0 : σ) (x0 : K) (y0 : Ctl.Vec K n)
+    (firstStep : Option K) (hmaxArg : K) (iord : Nat) (fo hl : K) (fuel : Nat) :
+    Ctl.hSolve (Ctl.dopri5Params L xend posneg uround safety scaleMin scaleMax beta hmax nmax nstiff dense) (Ctl.dopri5Kernel (vsmul c atol) rtol)
+        f (Ctl.sObs c ob) obs0 x0 (vsmul c y0) firstStep (Ctl.hinitCall (vsmul c atol) rtol x0 (vsmul c y0) posneg hmaxArg iord) fo hl fuel
+      = (Ctl.hSolve (Ctl.dopri5Params L xend posneg uround safety scaleMin scaleMax beta hmax nmax nstiff dense) (Ctl.dopri5Kernel atol rtol)
+        f ob obs0 x0 y0 firstStep (Ctl.hinitCall atol rtol x0 y0 posneg hmaxArg iord) fo hl fuel).map (Ctl.sResult c) := by
+  have h := Ctl.dopri5Solve_scale c hc L xend posneg uround safety scaleMin scaleMax beta hmax nmax nstiff dense atol rtol f ob obs0 x0 y0
+    firstStep hmaxArg iord fo hl fuel
+  rw [Ctl.sRhs_of_homogeneous c hc.ne' f hf] at h
+  exact h
+
+/-- the hypothesis of `c13_scale_dopri5_whole_run` is met by every linear system `y' = A(t) y` -/
+example {n : Nat} (c : K) (A : K → Fin n → Fin n → K) :
+    ∀ (j : Nat) (t : K) (y : Vector K n),
+      (fun (_ : Nat) (t : K) (y : Vector K n) => (Vector.ofFn fun i => ∑ k : Fin n, A t i k * y[k] : Vector K n)) j t (vsmul c y)
+        = vsmul c ((fun (_ : Nat) (t : K) (y : Vector K n) => (Vector.ofFn fun i => ∑ k : Fin n, A t i k * y[k] : Vector K n)) j t y) := by
+  intro j t y
+  ext i hi
+  simp only [vsmul, Vector.getElem_ofFn, Fin.getElem_fin, Finset.mul_sum]
+  apply Finset.sum_congr rfl
+  intro k _
+  ring
 
 /-- BDF's norm (translated from bdf.rs) is invariant under a common scaling of values and scales, whatever their size -/
 theorem c13_scale_bdf_norm {n : Nat} (c : K) (hc : c ≠ 0) (values scale : Vector K n) (hnz : ∀ i : Fin n, scale[i] ≠ 0) :
